@@ -1,4 +1,5 @@
 import Tup.Lemmas.PhChoreo
+import Tup.Lemmas.PhCursor
 import Tup.Lemmas.PhModel
 import Tup.Lemmas.PhEmitted
 /-!
@@ -227,6 +228,75 @@ theorem line_bytes_feed (t : Term) (p : Placeholder) (m : Mode) (fmt : FmtT) (ro
   unfold Term.feedBytes
   rw [lineBytes_eq_serialize, EscL.parse_serialize _ (lineToks_emitted p m fmt row hsc hfmt)]
 
+/-- **(C) `choreography`, cursor-relative styles without scrolling** (`to_stream_at_cursor` with save/restore — the default of
+    `to_stream`/`display_only` — or with the relative `CSI n D`, no line feeds).  From ANY terminal state with the cursor at
+    `(x0, y0)`, if the rectangle fits to the right and below the cursor (`x0 + C ≤ W`, rows `y0 … y0 + R - 1` above the bottom
+    margin) then after the complete output
+    * row `y0 + i`, columns `x0 … x0 + C - 1` decode to `(id, pid, start_row + i, start_col + j)` for image rows < 297
+      (positions of DESIGN.md A.5 with `s = 0`) and are spaces for image rows ≥ 297;
+    * every cell outside the rectangle is unchanged;
+    * the cursor is at `(x0 + C, y0 + R - 1)` and the colours are default.
+    Save/restore: for both values of every terminal parameter.  Relative style: when the line touches the right margin
+    (`x0 + C = W`) the hypothesis `cfg.cubFromW` (tmux/kitty `CUB` semantics) is needed — the case the code's own comment
+    calls unreliable. -/
+theorem choreography_at_cursor_noscroll (save : Bool) (t : Term) (p : Placeholder) (m : Mode) (fmt : FmtT)
+    (hp : p.valid = true) (hm : m.valid = true) (hsc : p.startCol < 297) (hfmt : BgOnly fmt)
+    (hw : t.cx + (p.endCol - p.startCol) ≤ t.w) (hrows : t.cy + (p.endRow - p.startRow) ≤ t.bot + 1) (hbot : t.bot < t.h)
+    (hcub : save = false → (t.cfg.cubFromW = true ∨ t.cx + (p.endCol - p.startCol) < t.w)) :
+    let t' := t.feedAll (streamToks (.atCursor save false) (p.endCol - p.startCol) (p.lineToksAll m fmt))
+    (∀ i < p.endRow - p.startRow, p.startRow + i < 297 →
+      decodeRow none ((List.range (p.endCol - p.startCol)).map fun j => t'.cells (t.cy + i) (t.cx + j)) =
+        (List.range (p.endCol - p.startCol)).map fun j => some ⟨p.imageId, p.placementId, p.startRow + i, p.startCol + j⟩) ∧
+    (∀ i < p.endRow - p.startRow, 297 ≤ p.startRow + i → ∀ j < p.endCol - p.startCol, (t'.cells (t.cy + i) (t.cx + j)).ch = 32) ∧
+    (∀ y x, ¬ (t.cy ≤ y ∧ y < t.cy + (p.endRow - p.startRow) ∧ t.cx ≤ x ∧ x < t.cx + (p.endCol - p.startCol)) →
+      t'.cells y x = t.cells y x) ∧
+    t'.cx = t.cx + (p.endCol - p.startCol) ∧ t'.cy = t.cy + (p.endRow - p.startRow) - 1 ∧ t'.sgr = {} := by
+  have hp' := hp
+  simp only [Placeholder.valid, Bool.and_eq_true, decide_eq_true_eq] at hp'
+  simp only [Mode.valid, Bool.and_eq_true, decide_eq_true_eq] at hm
+  obtain ⟨⟨⟨⟨hid0, hid⟩, hpid⟩, hlt⟩, hrw⟩ := hp'
+  obtain ⟨n, hn⟩ : ∃ n, p.endRow - p.startRow = n + 1 := ⟨p.endRow - p.startRow - 1, by omega⟩
+  intro t'
+  have ht' : t' = curRes save p m fmt n p.startRow t := by
+    have := feed_cur save p m fmt hsc hlt hfmt n 0 p.startRow t hw (by omega) hbot hcub
+    simp only [Nat.zero_add] at this
+    simp only [t', streamToks, Placeholder.lineToksAll, hn, List.length_map, List.length_range']
+    exact this
+  have hread : ∀ i < n + 1,
+      ((List.range (p.endCol - p.startCol)).map fun j => t'.cells (t.cy + i) (t.cx + j)) = rowCells p m fmt (p.startRow + i) := by
+    intro i hi
+    apply List.ext_getElem
+    · simp [rowCells_length p m fmt _ hlt]
+    · intro j h1 h2
+      simp only [List.getElem_map, List.getElem_range, ht', curRes_cells save p m fmt hlt]
+      have hj : j < p.endCol - p.startCol := by simpa using h1
+      have hc : t.cy ≤ t.cy + i ∧ t.cy + i < t.cy + (n + 1) ∧ t.cx ≤ t.cx + j ∧ t.cx + j < t.cx + (p.endCol - p.startCol) := by omega
+      have e1 : t.cy + i - t.cy = i := by omega
+      have e2 : t.cx + j - t.cx = j := by omega
+      simp [hc, e1, e2, h2]
+  rw [hn]
+  refine ⟨?_, ?_, ?_, ?_⟩
+  · intro i hi hrow
+    rw [hread i hi]
+    simp only [rowCells, hrow, if_true]
+    rw [decodeRow_lineScreenCells p m fmt _ (by omega) hpid ⟨hm.1.1, hm.1.2⟩ hrow hsc hlt hfmt, List.range'_eq_map_range]
+    simp [List.map_map, Function.comp_def]
+  · intro i hi hrow j hj
+    have h := hread i hi
+    have hj' : j < ((List.range (p.endCol - p.startCol)).map fun j => t'.cells (t.cy + i) (t.cx + j)).length := by simp [hj]
+    have := List.getElem_of_eq h hj'
+    simp only [List.getElem_map, List.getElem_range] at this
+    rw [this]
+    have hnot : ¬ p.startRow + i < 297 := by omega
+    simp only [rowCells, hnot, if_false]
+    exact blankScreenCells_ch p fmt _ _ (List.getElem_mem _)
+  · intro y x hne
+    rw [ht', curRes_cells save p m fmt hlt]
+    simp [hne]
+  · rw [ht']
+    have := curRes_cursor save p m fmt n p.startRow t
+    exact ⟨this.1, by rw [this.2.1]; omega, this.2.2⟩
+
 /-- **(C) single-row case, every cursor-relative style**: for a one-row placeholder `to_stream_at_cursor` (with or without
     save/restore, with or without line feeds) writes exactly the line — no cursor movement at all — so `line_decodes`,
     `line_frame` and `line_decodes_row` are the complete choreography: cells at `(y0, x0 + j)`, cursor at `(x0 + C, y0)`,
@@ -250,8 +320,10 @@ example : (⟨0x01020304, 5, 1, 0, 4, 2⟩ : Placeholder).valid = true ∧ (disp
         ∀ i < R, ∀ j < C, decode t' (expectedPos style i j) = some ⟨id, pid, startRow+i, startCol+j⟩ ∧ every other cell is blank
       with the hypothesis `cfg.cubFromW` for the relative style touching the right margin.
       Proved above: the absolute-position style (`choreography_abs`, any start state, both values of every terminal
-      parameter) and the single-row case of every cursor-relative style (`choreography_single_row`).  The per-line statements `line_decodes` + `line_frame` are the induction step for the other styles.
-      TODO: the at-cursor styles (save/restore, relative, line feeds) with scrolling.
+      parameter), the cursor-relative styles with save/restore or relative movement when nothing scrolls
+      (`choreography_at_cursor_noscroll`; `cubFromW` only where the relative style touches the right margin) and the
+      single-row case of every cursor-relative style (`choreography_single_row`).  The per-line statements `line_decodes` + `line_frame` are the induction step for the other styles.
+      TODO: scrolling (`y0 + R > H`: every written row moves up with the content), and the line-feed styles, which need the tty's ONLCR (`Spec.onlcr`).
 -/
 
 end Tup.C07
